@@ -132,11 +132,13 @@ def exactDesc (s : LinSeg) : Bool :=
 def LinDesc.limit (l : Option (Int × Bool)) : Option Limit :=
   l.map fun (v, o) => { value := some (.int v), itype := some (if o then .open_ else .closed) }
 
+/-- the one COMPU-SCALE of the method -/
+def LinDesc.scale (d : LinDesc) : Scale :=
+  { lo := LinDesc.limit d.lower, hi := LinDesc.limit d.upper,
+    coeffs := some ([(d.num0 : Rat), (d.num1 : Rat)], [(d.den : Rat)]) }
+
 def LinDesc.desc (d : LinDesc) (ity pty : DType) : Compu.Desc :=
-  { cat := .linear, ity := ity, pty := pty,
-    i2p := some { scales := [{ lo := LinDesc.limit d.lower, hi := LinDesc.limit d.upper,
-                               coeffs := some ([(d.num0 : Rat), (d.num1 : Rat)], [(d.den : Rat)]) }] },
-    p2i := none }
+  { cat := .linear, ity := ity, pty := pty, i2p := some { scales := [d.scale] }, p2i := none }
 
 /-- the LINEAR method object; `none`: the loader rejects the description, or it is outside the exactness guard -/
 def linMethod? (d : LinDesc) (ity pty : BaseType) : Option Method := do
